@@ -4,6 +4,7 @@ import (
 	"fmt"
 	"go/constant"
 	"go/token"
+	"go/types"
 	"sort"
 	"strings"
 
@@ -12,9 +13,9 @@ import (
 
 func init() {
 	register(&PropertyDef{
-		ID: "C12",
+		ID:          "C12",
 		Explanation: "Static analysis of the RTSP session request handling. Decided: (1) R-ONE-RESPONSE - on every path through Session.onRequest (summaries through onPreprocess, the method handlers and the role helpers, correlated with the boolean they return) exactly one response is sent; WSP: onRequest returns a response on every path and every iteration of the control loop writes exactly one control message; (2) R-RESPONSE-CTOR - rtsp.Response objects of the two session types are built only in newResponse, which copies CSeq from the request and sets the session id; (3) R-STATE-WRITERS - Session.status is assigned Playing only in onPlay after the role helper succeeded, Recording only in onRecord after asTCPPusher, Ready only in onSetup, Init only at construction/teardown; (4) R-HANDLERS-GATED - the method handlers are called only from onRequest on the edge where onPreprocess returned true; (5) R-GATE-TABLE - onPreprocess is evaluated abstractly (constant propagation with branch evaluation, no execution) over status x method; the resulting accept/refuse table equals the reference automaton of the property, every refusing cell sets 455 and stores nothing into the session; (6) R-TEARDOWN-RELEASES - the deferred closure of process closes the consumer and the published stream on every path.",
-		NotDecided: "Transport/SDP validity decisions inside SETUP, header content beyond CSeq/Session, behaviour of the client side.",
+		NotDecided:  "Transport/SDP validity decisions inside SETUP, header content beyond CSeq/Session, behaviour of the client side.",
 		Rules: []*RuleDoc{
 			{Name: "R-ONE-RESPONSE", Text: "Exactly one Session.response per path of onRequest (interprocedural summaries); WSP: response object on every path, one control write per loop iteration.", Run: ruleOneResponse},
 			{Name: "R-RESPONSE-CTOR", Text: "Response literals only in newResponse, which sets CSeq from the request and the Session id.", Run: ruleResponseCtor},
@@ -414,14 +415,16 @@ func ruleStateWriters(c *Ctx) {
 				if good {
 					// dominated by err == nil after a role helper
 					good = false
-					blk := ins.Block()
-					if len(blk.Preds) == 1 {
-						if ifi, ok := blk.Preds[0].Instrs[len(blk.Preds[0].Instrs)-1].(*ssa.If); ok && blk.Preds[0].Succs[0] == blk {
-							if b, ok := ifi.Cond.(*ssa.BinOp); ok && b.Op == token.EQL && (isNilConst(b.X) || isNilConst(b.Y)) {
-								good = true
+					domConds(ins, func(cond ssa.Value, taken bool) {
+						if b, ok := cond.(*ssa.BinOp); ok && (isNilConst(b.X) || isNilConst(b.Y)) {
+							// err == nil taken, or err != nil not taken
+							if b.Op == token.EQL && taken || b.Op == token.NEQ && !taken {
+								if types.Identical(b.X.Type(), types.Universe.Lookup("error").Type()) || types.Identical(b.Y.Type(), types.Universe.Lookup("error").Type()) {
+									good = true
+								}
 							}
 						}
-					}
+					})
 				}
 				c.Decide(good, key, p.InstrPos(ins), "Playing only after the role helper returned nil", "status becomes Playing without the consumer role having been established successfully (media state without media, or PLAY accepted after a failed response)")
 			case 3:
